@@ -183,8 +183,9 @@ class ExprGen:
 
 # ------------------------------------------------------------------ signals
 
-def gen_signals(rng, n_in=None, n_out=None, n_bidir=None, wide=False, odd_names=False, scope_names=False):
-    """returns list of dicts {name, typ: I|O|B, bits, default}"""
+def gen_signals(rng, n_in=None, n_out=None, n_bidir=None, wide=False, odd_names=False, scope_names=False, many=0, big_defaults=False):
+    """returns list of dicts {name, typ: I|O|B, bits, default}; `many` extra signals with generated names (also names that
+    end in _out, differ from another name in letter case only, or are prefixes of one another)"""
     n_in = rng.randrange(1, 4) if n_in is None else n_in
     n_out = rng.randrange(1, 4) if n_out is None else n_out
     n_bidir = (1 if rng.random() < 0.3 else 0) if n_bidir is None else n_bidir
@@ -217,6 +218,22 @@ def gen_signals(rng, n_in=None, n_out=None, n_bidir=None, wide=False, odd_names=
         sigs.append({"name": names_out[i], "typ": "O", "bits": bits(), "default": "-"})
     for i in range(n_bidir):
         sigs.append({"name": names_bi[i], "typ": "B", "bits": bits(), "default": dflt()})
+    used = set(s_["name"] for s_ in sigs)
+    for i in range(many):
+        base = rng.choice(["S%d" % i, "S%d" % i, "s%d" % i, "P%d_out" % i, "QQ", "Qq", "q", "AB", "A%d" % i, "CLK%d" % i, "T_%d" % i, "x%d" % i, "C%d" % i])
+        x = rng.random()
+        if x < 0.08 and sigs:
+            base = rng.choice(sigs)["name"] + rng.choice(["_out", "_OUT", "x", "_"])
+        elif x < 0.12 and sigs:
+            base = rng.choice(sigs)["name"].swapcase()
+        if base in used or not base:
+            base = "M%d" % i
+        used.add(base)
+        typ = rng.choice(["I", "I", "O", "O", "B"])
+        d = "-" if typ == "O" else dflt()
+        if big_defaults and typ != "O" and rng.random() < 0.3:
+            d = str(rng.choice([255, 256, 65535, -1, 2 ** 40, 2 ** 63 - 1]))
+        sigs.append({"name": base, "typ": typ, "bits": bits(), "default": d})
     rng.shuffle(sigs)
     return sigs
 
@@ -663,7 +680,8 @@ def gen_run_case(cid, seed, profile=None):
         p.update(profile)
     rng = random.Random(seed)
     sigs = gen_signals(rng, wide=p.get("wide", False), odd_names=p.get("odd_names", False),
-                       n_bidir=p.get("n_bidir"), scope_names=(rng.random() < p.get("scope_names", 0.0)))
+                       n_bidir=p.get("n_bidir"), scope_names=(rng.random() < p.get("scope_names", 0.0)),
+                       many=p.get("many", 0), big_defaults=p.get("big_defaults", False))
     cols = gen_header(rng, sigs, full=p.get("full_header", False))
     if rng.random() < p.get("out_twin", 0.0):
         # a separate output literally named <bidirectional>_out, same width: a different signal, whatever its name suggests
@@ -766,3 +784,43 @@ if __name__ == "__main__":
     c = gen_run_case("demo", int(sys.argv[1]) if len(sys.argv) > 1 else 1, {"fancy": True, "radix_mix": True})
     sys.stdout.write(c["src"])
     write_case(sys.stdout, c)
+
+
+def wild_profile(rng):
+    """a profile with every dial set at random, many of them to an extreme: the point is to reach combinations of
+    input features nobody thought of (many columns, deep nesting, every kind of name, every kind of entry, every layout)"""
+    def pr(hi=1.0, zero=0.4):
+        x = rng.random()
+        if x < zero:
+            return 0.0
+        if x < zero + 0.2:
+            return hi
+        return round(rng.random() * hi, 2)
+    p = {"reads": pr(0.9, 0.3), "random": pr(0.7, 0.5), "declare": pr(1.0, 0.4), "declare_random": rng.random() < 0.3,
+         "maxdepth": rng.choice([1, 2, 3, 3, 4, 6, 9, 11]), "budget": rng.choice([4, 8, 12, 16, 24, 40]), "depth": rng.choice([1, 2, 3, 4, 5]),
+         "wrow": rng.choice([0.2, 0.35, 0.45, 0.7]), "wlet": rng.choice([0.0, 0.1, 0.2, 0.35]),
+         "pC": pr(0.5), "pX": pr(0.5), "pZ": pr(0.3), "pXout": pr(0.6, 0.2), "pZout": pr(0.4), "pC_out": pr(0.15, 0.7), "pbits": pr(0.4),
+         "pexpr": rng.choice([0.1, 0.4, 0.8]), "bigvals": rng.random() < 0.4, "small": rng.random() < 0.5, "div": rng.random() < 0.7,
+         "shift_small": rng.random() < 0.5, "fn": rng.random() < 0.8,
+         "shadow_out": pr(0.8), "scope_names": pr(0.9, 0.5), "dead_names": pr(0.6, 0.5), "self_ref": pr(0.6, 0.3), "kw_names": pr(0.7, 0.5),
+         "own_counter": pr(0.4, 0.5), "own_bound": pr(0.3, 0.7), "while_binds": pr(0.6, 0.4), "while_neg": pr(0.5, 0.4), "while_random": pr(0.5, 0.5),
+         "read_virtual": pr(0.3, 0.8), "rebind_counter": 0.0, "out_twin": pr(0.8, 0.6), "n_bidir": rng.choice([None, 0, 1, 2]),
+         "wide": rng.random() < 0.5, "odd_names": rng.random() < 0.3, "many": rng.choice([0, 0, 0, 3, 8, 14, 20, 40, 66]), "big_defaults": rng.random() < 0.3,
+         "full_header": rng.random() < 0.5, "full_layout": rng.random() < 0.5, "pZX": pr(0.3, 0.5), "pZXread": pr(0.1, 0.7), "drop_read": pr(0.2, 0.8),
+         "echo": rng.choice([0.0, 0.5, 1.0]), "fancy": rng.random() < 0.4, "crlf": rng.random() < 0.3, "radix_mix": rng.random() < 0.5,
+         "redundant": pr(0.4, 0.5), "trailing_nl": rng.choice([0.0, 0.9, 1.0]), "lead_blank": rng.random() < 0.3,
+         "cont": rng.choice([0.0, 1.0]), "max": 150}
+    return p
+
+
+def wild_cases(prefix, seed, n):
+    out = []
+    for i in range(n):
+        s0 = (seed * 9176 + i * 7919 + 13) & 0x7FFFFFFF
+        rng = random.Random(s0 ^ 0x771D)
+        p = wild_profile(rng)
+        c = gen_run_case("%s-wild-%d-%d" % (prefix, seed & 0xFFFF, i), s0, p)
+        if p["cont"]:
+            c["cont"] = 1
+        out.append(c)
+    return out
